@@ -30,7 +30,12 @@ RULE = ('names of 0..8 components, types from {1,2,8,32,50,52,54,56,58,252,253,6
         'single-byte component; a URI parsing stream (valid URIs mutated: truncated escapes, stray = % -, upper/lower-case hex, '
         'non-ASCII, typed prefixes with odd numbers) compared on accept/reject class and value; arbitrary text through escape_str; '
         'typed numbers 0..2^64-1 and just outside; well-formed and damaged Name wires; pairs of related names for is_prefix and for '
-        'byte order versus an independent (type, length, value) comparison. non-trivial = at least one component / an accepted URI / '
+        'byte order versus an independent (type, length, value) comparison; names whose total Length and components whose '
+        'own Length sit on 252/253 and 65535/65536 (1- and 3-byte Type numbers); oracle-only observations on the other '
+        'front-ends of the same conversions (to_bytes/from_bytes, decode/encode at a non-zero offset, encoded_length, '
+        'normalize of tuple/generator/bytes+bytearray+memoryview+str lists, non-strict arguments of to_str/'
+        'to_canonical_uri/is_prefix, lower-case percent escapes, upper-case digests, the five typed-number constructors '
+        'and shorthands). non-trivial = at least one component / an accepted URI / '
         'a pair that is not identical; distinct = distinct cases')
 
 NUM_TYPES = (50, 52, 54, 56, 58)
@@ -130,7 +135,7 @@ def _exec(op):
 
 class _Rec:
     def __init__(self):
-        self.ops, self.res, self.lab = [], [], {}
+        self.ops, self.res, self.lab, self.sd = [], [], {}, {}
 
     def do(self, op, label=None):
         tok, val = _exec(op)
@@ -140,8 +145,15 @@ class _Rec:
             self.lab[label] = tok
         return val
 
+    def side(self, label, fn):
+        """oracle-only observation (not part of the model protocol): fn() -> token"""
+        try:
+            self.sd[label] = fn()
+        except Exception as e:          # noqa - the class is the observation
+            self.sd[label] = 'err=' + _cls(e)
+
     def out(self, **extra):
-        d = {'ops': self.ops, 'res': self.res, 'lab': self.lab}
+        d = {'ops': self.ops, 'res': self.res, 'lab': self.lab, 'side': self.sd}
         d.update(extra)
         return d
 
@@ -284,8 +296,50 @@ def _wire(rng):
     return bytes(w).hex()
 
 
+def _sized_name(rng, total, ncomp):
+    """a name whose components' encodings add up to exactly `total` bytes (the Length of the Name TLV)"""
+    out, left = [], total
+    for i in range(ncomp - 1):
+        t, vh = _comp(rng)
+        sz = (1 if t < 253 else 3) + 1 + len(vh) // 2
+        if sz + 3 > left:
+            break
+        out.append([t, vh])
+        left -= sz
+    t = rng.choice([8, 8, 32, 252, 253, 65535])
+    tl = 1 if t < 253 else 3
+    for ll in (1, 3, 5):
+        v = left - tl - ll
+        if v >= 0 and (v < 253 if ll == 1 else 253 <= v < 65536 if ll == 3 else v >= 65536):
+            fill = rng.choice([0x00, 0xff, 0x41, 0x25, 0x3d, rng.randrange(256)])
+            out.insert(rng.randint(0, len(out)), [t, (bytes([fill]) * v).hex()])
+            return out
+    # `left` falls into a gap of the length-of-length function (e.g. 1+3+252): pad with one more small component
+    out.append([8, ''])
+    return out + _sized_name(rng, left - 2, 1)
+
+
 def cases(rng, tier):
     quick = tier == 'quick'
+    # boundaries of the NAME Length (not only of a component's): 252/253 and 65535/65536, reached with 1..4 components,
+    # and components whose own Length sits on those boundaries with 1- and 3-byte Type numbers
+    # (the 64 KiB ones cost ~2 s each, so the quick tier takes three of them)
+    for total in (251, 252, 253, 254, 255, 256, 258, 65535, 65536, 65537):
+        for ncomp in ((1, 2, 3, 4, 4) if not quick else (1, 3) if total < 1000 else (1,) if total == 65535 else (3,) if total == 65536 else ()):
+            yield {'k': 'name', 'comps': _sized_name(rng, total, ncomp)}
+    for vlen in (252, 253, 254, 65535, 65536):
+        for t in ((8, 1, 32, 252, 253, 65535) if not quick else (8, 65535) if vlen < 1000 else (65535,) if vlen == 65536 else ()):
+            yield {'k': 'name', 'comps': [[8, '61'], [t, (bytes([rng.choice([0x41, 0, 0xff, 0x2f])]) * vlen).hex()]]}
+    for la, lb in ((252, 253), (253, 254), (65535, 65536), (252, 65536), (255, 256), (0, 253)):
+        for ta, tb in (((8, 8), (65535, 8)) if quick and lb > 1000 else ((8, 8), (252, 253), (253, 253), (65535, 8))):
+            a = [[8, '62'], [ta, 'ff' * la]]
+            b = [[8, '62'], [tb, '00' * lb]]
+            yield {'k': 'pair', 'a': a, 'b': b}
+            yield {'k': 'pair', 'a': a + [[8, '']], 'b': a}
+    yield {'k': 'pair', 'a': [], 'b': []}
+    yield {'k': 'pair', 'a': [], 'b': [[8, '']]}
+    yield {'k': 'pair', 'a': [[8, '']], 'b': [[8, ''], [8, '']]}
+    yield {'k': 'pair', 'a': [[8, '61']], 'b': [[8, '61']]}
     # every byte value as a single-byte component (exhaustive), 8 per name
     byte_types = [8, 32, 1, 50] if quick else [1, 2, 8, 32, 50, 52, 54, 56, 58, 252, 253, 65535, 300]
     for t in byte_types:
@@ -378,6 +432,73 @@ def _build(R, comps, tag):
     return out
 
 
+_LOWER_ESC = re.compile('%[0-9A-F]{2}')
+# naming conventions (NDN Technical Memo: Naming Conventions, rev. 2): constructor -> (URI shorthand, component type)
+_CONVENTION = {'from_segment': ('seg', 50), 'from_byte_offset': ('off', 52), 'from_version': ('v', 54),
+               'from_timestamp': ('t', 56), 'from_sequence_num': ('seq', 58)}
+
+
+def _kinded(cs, uris, shift):
+    """the same components as bytes / bytearray / memoryview / canonical URI str, rotating"""
+    out = []
+    for i, c in enumerate(cs):
+        m = (i + shift) % 4
+        out.append(bytes(c) if m == 0 else bytearray(c) if m == 1 else memoryview(bytes(c)) if m == 2 else
+                   (uris[i] if uris[i] is not None else bytes(c)))
+    return out
+
+
+def _name_side(R, cs, w, U, S, uris):
+    """oracle-only observations on the other front-ends of the same conversions: to_bytes / from_bytes, decode and encode
+    at a non-zero offset, encoded_length, every accepted container / element type for normalize, non-strict arguments of
+    to_str / to_canonical_uri / is_prefix, the other letter case of percent escapes and digests"""
+    Name, Component = _imports()
+    nm = lambda v: 'ok=' + _nm([bytes(c) for c in v])       # noqa
+    n = len(cs)
+    R.side('tb_list', lambda: 'ok=' + _hx(Name.to_bytes([bytearray(c) for c in cs])))
+    R.side('enclen', lambda: 'ok=%d' % Name.encoded_length(cs))
+    R.side('nrm_tuple', lambda: nm(Name.normalize(tuple(cs))))
+    R.side('nrm_gen', lambda: nm(Name.normalize(c for c in cs)))
+    for sh in range(4):
+        R.side('nrm_kinds%d' % sh, lambda: nm(Name.normalize(_kinded(cs, uris, sh))))
+    R.side('pre_kinds', lambda: 'ok=%s' % Name.is_prefix(_kinded(cs, uris, 1), _kinded(cs, uris, 2)))
+    for i, c in enumerate(cs[:3]):
+        t, v = Component.get_type(c), bytes(Component.get_value(c))
+        R.side('fhex%d' % i, lambda: 'ok=' + _hx(Component.from_hex(v.hex(), t)))
+        R.side('ts_mv%d' % i, lambda: 'ok=' + _tx(Component.to_str(memoryview(c))))
+        R.side('tc_ba%d' % i, lambda: 'ok=' + _tx(Component.to_canonical_uri(bytearray(c))))
+    if w is not None:
+        R.side('tb_wire', lambda: 'ok=' + _hx(Name.to_bytes(bytearray(w))))
+        R.side('fb_wire', lambda: nm(Name.from_bytes(w)))
+        for off, tail in ((1, b''), (3, b'\x08\x01A')):
+            def dec_off():
+                v, k = Name.decode(b'\x07' * off + w + tail, off)
+                return '%s@%d' % (nm(v), k)
+            R.side('dec_off%d' % off, dec_off)
+
+            def enc_off():
+                buf = bytearray(b'\xee' * (off + len(w) + len(tail)))
+                r = Name.encode(cs, buf, off)
+                return 'ok=' + _hx(bytes(r))
+            R.side('enc_off%d' % off, enc_off)
+        R.side('nts_wire', lambda: 'ok=' + _tx(Name.to_str(w)))
+        R.side('ntc_wire', lambda: 'ok=' + _tx(Name.to_canonical_uri(memoryview(w))))
+        for j in sorted({0, n // 2, n}):
+            R.side('pre_w_%d' % j, lambda: 'ok=%s' % Name.is_prefix(Name.encode(cs[:j]), w))
+            R.side('erp_w_%d' % j, lambda: 'ok=%s' % Name.is_prefix(w, [bytes(c) for c in cs[:j]]))
+    if U is not None:
+        R.side('tb_str', lambda: 'ok=' + _hx(Name.to_bytes(U)))
+        R.side('ntc_str', lambda: 'ok=' + _tx(Name.to_canonical_uri(U)))
+        R.side('nfs_lower', lambda: nm(Name.from_str(_LOWER_ESC.sub(lambda m: m.group(0).lower(), U))))
+        if w is not None:
+            R.side('pre_s_w', lambda: 'ok=%s' % Name.is_prefix(U, w))
+            R.side('pre_w_s', lambda: 'ok=%s' % Name.is_prefix(w, U))
+    if S is not None:
+        up = '/'.join((x.split('=')[0] + '=' + x.split('=')[1].upper()) if x.startswith(('sha256digest=', 'params-sha256=')) else x
+                      for x in S.split('/'))
+        R.side('nfs_digest_upper', lambda: nm(Name.from_str(up)))
+
+
 def run_impl(case):
     R = _Rec()
     k = case['k']
@@ -417,6 +538,7 @@ def run_impl(case):
         for j in sorted({0, len(cs) // 2, max(0, len(cs) - 1), len(cs)}):
             R.do('pre:%s:%s' % (_nm(cs[:j]), nh), 'pre_%d' % j)
             R.do('pre:%s:%s' % (nh, _nm(cs[:j])), 'erp_%d' % j)
+        _name_side(R, cs, w, U, S, uris)
         return R.out(built=True, name=nh)
     if k == 'pair':
         a, b = _build(R, case['a'], 'a'), _build(R, case['b'], 'b')
@@ -490,6 +612,12 @@ def run_impl(case):
                 R.do('fs:' + _tx(s), 'fs_ts')
         if case['n'] >= 0:
             R.do('fs:' + _tx('seg=%d' % case['n']), 'fs_seg')
+        Name, Component = _imports()
+        for nm_, (short, typ) in _CONVENTION.items():
+            R.side('ctor_' + short, lambda: 'ok=' + _hx(getattr(Component, nm_)(case['n'])))
+            if case['n'] >= 0:
+                R.side('fs_' + short, lambda: 'ok=' + _hx(Component.from_str('%s=%d' % (short, case['n']))))
+                R.side('nfs_' + short, lambda: 'ok=' + _nm([bytes(c) for c in Name.from_str('/a/%s=%d' % (short, case['n']))]))
         return R.out()
     if k == 'wire':
         r = R.do('dec:' + (case['w'] or '-'), 'dec')
@@ -550,6 +678,50 @@ def _ok(tok):
     return tok is not None and tok.startswith('ok=')
 
 
+def _name_side_oracle(comps, L, D, want, wlen):
+    n = len(comps)
+    canon = all(_canon_num(t, bytes.fromhex(v)) for t, v in comps)
+    enc = L['enc']
+    for lab, what in (('tb_list', 'to_bytes(list of components)'), ('tb_wire', 'to_bytes(wire)'), ('tb_str', 'to_bytes(canonical URI)')):
+        if D.get(lab) != enc:
+            return f'Name.{what} != Name.encode(n)'
+    if D.get('enclen') != 'ok=%d' % wlen:
+        return 'Name.encoded_length(n) != len(Name.encode(n))'
+    for lab, what in (('nrm_tuple', 'tuple'), ('nrm_gen', 'generator'), ('nrm_kinds0', 'bytes/bytearray/memoryview/str list'),
+                      ('nrm_kinds1', 'bytes/bytearray/memoryview/str list'), ('nrm_kinds2', 'bytes/bytearray/memoryview/str list'),
+                      ('nrm_kinds3', 'bytes/bytearray/memoryview/str list'), ('fb_wire', 'from_bytes(wire)'),
+                      ('nfs_lower', 'canonical URI with lower-case percent escapes')):
+        if D.get(lab) != want:
+            return f'normalize({what}) != n' if lab.startswith('nrm') else f'Name {what} != n'
+    if D.get('pre_kinds') != 'ok=True':
+        return 'is_prefix of the same name given with different element types is not True'
+    for i in range(min(3, n)):
+        if D.get('fhex%d' % i) != L['c%d' % i]:
+            return f'component {i}: from_hex(value.hex(), type) != from_bytes(value, type)'
+        if D.get('ts_mv%d' % i) != L['ts%d' % i] or D.get('tc_ba%d' % i) != L['tc%d' % i]:
+            return f'component {i}: URI of the component differs with the buffer type it is held in'
+    for off in (1, 3):
+        if D.get('dec_off%d' % off) != '%s@%d' % (want, wlen):
+            return 'Name.decode(buf, offset) at a non-zero offset != (n, len)'
+        e = D.get('enc_off%d' % off, '')
+        if not _ok(e) or _unhx(e[3:])[off:off + wlen] != _unhx(enc[3:]):
+            return 'Name.encode(n, buf, offset) does not place the wire of n at the offset'
+    if D.get('nts_wire') != L['nts']:
+        return 'Name.to_str(wire) != Name.to_str(n)'
+    if D.get('ntc_wire') != L['ntc'] or D.get('ntc_str') != L['ntc']:
+        return 'Name.to_canonical_uri of the wire / of the canonical URI != Name.to_canonical_uri(n)'
+    if canon and D.get('nfs_digest_upper') != want:
+        return 'Name.from_str(Name.to_str(n) with upper-case digest hex) != n'
+    if D.get('pre_s_w') != 'ok=True' or D.get('pre_w_s') != 'ok=True':
+        return 'is_prefix between the URI and the wire of the same name is not True'
+    for lab, tok in D.items():
+        if lab.startswith('pre_w_') and tok != 'ok=True':
+            return 'is_prefix(wire of n[:j], wire of n) is not True'
+        if lab.startswith('erp_w_') and tok != ('ok=True' if int(lab[6:]) == n else 'ok=False'):
+            return 'is_prefix(wire of n, n[:j]) disagrees with component-wise equality'
+    return None
+
+
 def oracle(case, impl):
     L = impl['lab']
     k = case['k']
@@ -585,6 +757,9 @@ def oracle(case, impl):
                 return f'{what} != n'
         if all(_canon_num(t, bytes.fromhex(v)) for t, v in comps) and L.get('nfs_nts') != want:
             return 'Name.from_str(Name.to_str(n)) != n'
+        r = _name_side_oracle(comps, L, impl.get('side', {}), want, wlen)
+        if r:
+            return r
         n = len(comps)
         for lab, tok in L.items():
             if lab.startswith('pre_') and tok != 'ok=T':
@@ -661,6 +836,15 @@ def oracle(case, impl):
                 return 'from_str(to_str(from_number(n))) != from_number(n)'
             if L.get('fs_seg') != 'ok=' + _hx(bytes([50, len(_pack(n))]) + _pack(n)):
                 return "from_str('seg=n') is not the segment component of n"
+            D = impl.get('side', {})
+            for ctor, (short, typ) in _CONVENTION.items():
+                wantc = _hx(bytes([typ, len(_pack(n))]) + _pack(n))
+                if D.get('ctor_' + short) != 'ok=' + wantc:
+                    return f'Component.{ctor}(n) is not the type-{typ} component holding the minimal number'
+                if D.get('fs_' + short) != 'ok=' + wantc:
+                    return f"from_str('{short}=n') is not the type-{typ} component of n"
+                if D.get('nfs_' + short) != 'ok=0801' + '61,' + wantc:
+                    return f"Name.from_str('/a/{short}=n') does not end with the type-{typ} component of n"
         return None
     if k == 'wire':
         return None
